@@ -221,11 +221,11 @@ def histories(chk, tier):
     hs = []
     if tier == "quick":
         hs += stride(wcommon.gen_histories(chk, [1], [2, 3], 2, 2, workers=4), 10)
-        hs += wcommon.gen_histories(chk, [2, 3, 4, 5, 6, 7, 8], [0, 2, 9], 3, 2, nullmode="runs", simulate=24, depth=40, workers=4)
+        hs += wcommon.gen_histories(chk, [2, 3, 4, 5, 6, 7, 8], [0, 2, 9], 3, 2, nullmode="runs", simulate=40, depth=40, workers=4)
     else:
-        hs += stride(wcommon.gen_histories(chk, [1], [1, 2, 3], 2, 2, workers=6), 16)
+        hs += stride(wcommon.gen_histories(chk, [1], [1, 2, 3], 2, 2, workers=6), 30)
         hs += wcommon.gen_histories(chk, [2, 3, 4, 5, 6, 7, 8], [0, 1, 2, 9, 17], 3, 3, nullmode="runs", anyorder=True,
-                                    simulate=50, depth=60, workers=6)
+                                    simulate=400, depth=60, workers=6)
     seen, out = set(), []
     for h in hs:
         k = json.dumps(h, sort_keys=True)
